@@ -33,7 +33,10 @@ def run(tier: str, seed: int) -> int:
     try:
         cov = {'states': 0, 'transitions': 0, 'models': {}}
         # 1. the design: exhaustive model checking
-        for cfg in ('IdAlloc_mc.cfg', 'IdAllocEnt_mc.cfg', 'IdAllocFix_mc.cfg'):
+        mcs = ['IdAlloc_mc.cfg', 'IdAllocEnt_mc.cfg', 'IdAllocFix_mc.cfg']
+        if tier == 'thorough':
+            mcs.append('IdAllocEnt_mc4.cfg')   # 4 object slots, desired IDs -1..4 (design only)
+        for cfg in mcs:
             r = run_tlc('IdAlloc', cfg)
             core.require_mc(r, cfg)
             cov['models'][cfg] = {'generated': r.generated, 'distinct': r.distinct, 'depth': r.depth}
